@@ -9,12 +9,10 @@ import (
 	"strings"
 	"time"
 
-	"github.com/nuts-foundation/go-did/did"
 	"github.com/nuts-foundation/nuts-node/auth"
 	"github.com/nuts-foundation/nuts-node/jsonld"
 	"github.com/nuts-foundation/nuts-node/storage"
 	"github.com/nuts-foundation/nuts-node/vcr"
-	"github.com/nuts-foundation/nuts-node/vcr/pe"
 	"github.com/nuts-foundation/nuts-node/vcr/verifier"
 	"github.com/nuts-foundation/nuts-node/vdr/resolver"
 	"github.com/piprate/json-gold/ld"
@@ -197,5 +195,3 @@ type hC02JSONLD struct{ jsonld.JSONLD }
 
 func (hC02JSONLD) DocumentLoader() ld.DocumentLoader { return nil }
 
-var _ = did.DID{}
-var _ = pe.Envelope{}
